@@ -784,6 +784,10 @@ pub enum Ev {
     AddSource { name: String, out: usize },
     /// DEP-3 only: persist the header through PatchHeader::write into a faulting sink, reload from the durable image
     Persist { plan: WritePlan },
+    /// control only: a fresh view of paragraph `para` is normalised with its own wrap_and_sort (which replaces the
+    /// paragraph behind the view by a rebuilt copy), then the setter of `row` is called through it and its getter read
+    /// back; the document itself must not move
+    WrapThenSet { para: usize, row: String, arg: Arg },
 }
 
 #[derive(Clone, Debug, Serialize, Deserialize)]
@@ -1012,8 +1016,10 @@ fn check_changes(c: &Case, obs: &mut Obs) -> Result<(), Violation> {
 fn gen_arg(rng: &mut Rng, g: G, seq: usize) -> Arg {
     let w = |rng: &mut Rng| -> String {
         let mut s = format!("w{seq}");
+        let upper = rng.chance(1, 4);
         for _ in 0..rng.below(5) {
-            s.push((b'a' + rng.below(26) as u8) as char);
+            let ch = (b'a' + rng.below(26) as u8) as char;
+            s.push(if upper && rng.chance(1, 2) { ch.to_ascii_uppercase() } else { ch });
         }
         s
     };
@@ -1067,7 +1073,7 @@ fn gen_arg(rng: &mut Rng, g: G, seq: usize) -> Arg {
         G::LicenseName => Arg::S(rng.s(&["GPL-2+", "MIT", "Apache-2.0", "GPL-2+ or MIT"]).to_string()),
         G::LicenseText => Arg::L(vec![format!("text{seq}"), ".".to_string(), "more".to_string()]),
         G::LicenseNamed => Arg::L(vec![rng.s(&["GPL-2+", "MIT"]).to_string(), format!("text{seq}"), ".".to_string(), "more".to_string()]),
-        G::Forwarded => Arg::S(rng.s(&["no", "not-needed", "https://example.com/bug/1"]).to_string()),
+        G::Forwarded => Arg::S(rng.s(&["no", "not-needed", "https://example.com/bug/1", "https://Example.com/Bugs/View?ID=42", "Sent-By-Mail-2024"]).to_string()),
         G::Applied => Arg::S(format!("{}{seq}", rng.s(&["commit:deadbeef", "1.2.", "https://x/y"]))),
         G::Origin => Arg::S(format!("{}{}{seq}", rng.s(&["", "backport, ", "vendor, ", "upstream, ", "other, "]), rng.s(&["commit:abc", "https://example.com/p"]))),
         G::Env => Arg::L((0..1 + rng.below(3)).map(|i| format!("K{seq}{i}=\"{}\"", w(rng))).collect()),
@@ -1175,6 +1181,17 @@ impl Scenario for C15 {
                 events.push(Ev::AddBinary { name, out: next });
                 views.push((next, model.len() - 1, "control::Binary"));
                 next += 1;
+                continue;
+            }
+            if kind == "control" && !model.is_empty() && rng.chance(1, 14) {
+                let para = rng.below(model.len());
+                if let Some(vk) = view_kind_for(kind, &model[para], para) {
+                    let cands: Vec<&Row> = table.iter().filter(|r| r.view == vk && matches!(r.gen, G::Word | G::Line | G::Url) && r.merge.is_none() && r.alias.is_none()).collect();
+                    if !cands.is_empty() {
+                        let row = cands[rng.below(cands.len())];
+                        events.push(Ev::WrapThenSet { para, row: format!("{}.{}", row.view, row.accessor), arg: gen_arg(rng, row.gen, seq) });
+                    }
+                }
                 continue;
             }
             if views.is_empty() || choice < 2 {
@@ -1344,9 +1361,10 @@ impl Scenario for C15 {
                         return Err(v("getter-on-raw-text", "dep3::PatchHeader.vendor_bugs", "raw-text", format!("vendor_bugs({vendor:?}) = {:?}, expected {:?}", gotv, wantv)));
                     }
                 }
-                let wantr: Vec<String> = p0.iter().filter(|e| e.0 == "Reviewed-By").map(|e| e.1.clone()).collect();
+                // DEP-3 spells the field "Reviewed-by" (so does the lossy type); field names are matched without regard to case
+                let wantr: Vec<String> = p0.iter().filter(|e| e.0.eq_ignore_ascii_case("Reviewed-by")).map(|e| e.1.clone()).collect();
                 if h.reviewed_by() != wantr {
-                    return Err(v("getter-on-raw-text", "dep3::PatchHeader.reviewed_by", "raw-text", format!("reviewed_by() = {:?}, the Reviewed-By fields read {:?}", h.reviewed_by(), wantr)));
+                    return Err(v("getter-on-raw-text", "dep3::PatchHeader.reviewed_by", "raw-text", format!("reviewed_by() = {:?}, the Reviewed-by fields read {:?}", h.reviewed_by(), wantr)));
                 }
                 obs.count("op.getter_on_raw_text");
             }
@@ -1429,6 +1447,39 @@ impl Scenario for C15 {
                             obs.count("reach.second_view_of_same_paragraph");
                         }
                         l.views.insert(*out, (*para, vw));
+                    }
+                }
+                Ev::WrapThenSet { para, row, arg } => {
+                    let rowdef = match table.iter().find(|r| format!("{}.{}", r.view, r.accessor) == *row) {
+                        Some(r) => r,
+                        None => continue,
+                    };
+                    if *para >= l.model.len() || view_kind_for(&c.kind, &l.model[*para], *para) != Some(rowdef.view) {
+                        continue;
+                    }
+                    // wrap_and_sort's treatment of comments and folded values is C07; keep to plain paragraphs
+                    if l.model[*para].iter().any(|e| e.1.contains('\n')) || doc_text(&l).contains('#') {
+                        continue;
+                    }
+                    let before = doc_text(&l);
+                    if let Some(mut vw) = make_view(&l, &c.kind, *para) {
+                        probe::at(Box::leak(format!("wrap_and_sort+{row}").into_boxed_str()));
+                        obs.prestate = "rebuilt-by-wrap_and_sort".into();
+                        obs.count("op.wrap_then_set");
+                        match &mut vw {
+                            AnyView::CS(x) => x.wrap_and_sort(deb822_lossless::Indentation::Spaces(1), false, Some(79)),
+                            AnyView::CB(x) => x.wrap_and_sort(deb822_lossless::Indentation::Spaces(1), false, Some(79)),
+                            _ => continue,
+                        }
+                        (rowdef.set)(&mut vw, arg);
+                        let got = (rowdef.get)(&vw);
+                        let want = (rowdef.expect)(arg);
+                        if got != want {
+                            return Err(v("getter-after-setter", row, "rebuilt-by-wrap_and_sort", format!("after wrap_and_sort on a view of paragraph {para} and {row}({:?}) the getter returns {:?}, expected {:?}", arg, got, want)));
+                        }
+                        if doc_text(&l) != before {
+                            return Err(v("model-content", row, "rebuilt-by-wrap_and_sort", format!("normalising and editing a view moved the document: {:?} -> {:?}", before, doc_text(&l))));
+                        }
                     }
                 }
                 Ev::Persist { plan } => {
